@@ -39,7 +39,7 @@ def _child(site_desc, opts, conc, seed, workdir, logpath, kill, run_index=0):
     """Runs in a forked child. kill = None | ('table', k) | ('commit', k) | ('request', k) | ('sigterm', k): the
     application's own SIGTERM handler is run when the k-th request arrives."""
     fd = os.open(logpath, os.O_WRONLY | os.O_CREAT | os.O_APPEND, 0o644)
-    counters = {'table': 0, 'commit': 0, 'request': 0}
+    counters = {'table': 0, 'commit': 0, 'request': 0, 'statement': 0}
 
     def sink(ev):
         os.write(fd, (json.dumps(ev) + '\n').encode())
@@ -78,6 +78,14 @@ def _child(site_desc, opts, conc, seed, workdir, logpath, kill, run_index=0):
         if kill and kill[0] == 'commit' and counters['commit'] == kill[1]:
             os._exit(77)
     sqlalchemy.event.listen(Engine, 'commit', before_commit)
+
+    def before_statement(conn, cursor, statement, parameters, context, executemany):
+        # every statement the table sends, schema statements included (each CREATE TABLE / CREATE INDEX of the start-up
+        # is a transaction of its own on SQLite: a kill can fall between two of them)
+        counters['statement'] = counters.get('statement', 0) + 1
+        if kill and kill[0] == 'statement' and counters['statement'] == kill[1]:
+            os._exit(77)
+    sqlalchemy.event.listen(Engine, 'before_cursor_execute', before_statement)
     site = cc.Site.from_desc(site_desc)
     rc = 3
     try:
@@ -237,7 +245,8 @@ def explore_site(ctx, site, opts, conc, seed, stride=1, only=None):
     points = [('table', k) for k in range(1, c['table'] + 1, stride)] + \
              [('commit', k) for k in range(1, c['commit'] + 1, stride)] + \
              [('request', k) for k in range(1, c['request'] + 1)] + \
-             [('sigterm', k) for k in range(1, c['request'] + 1, 2)]
+             [('sigterm', k) for k in range(1, c['request'] + 1, 2)] + \
+             [('statement', k) for k in range(1, min(c.get('statement', 0), 30) + 1)]
     if only:
         points = [kp for kp in points if only(kp)]
     args = [(desc, opts, conc, seed, kp) for kp in points]
